@@ -111,7 +111,9 @@ def registry_rules(ctx, rule: str):
     it = _method(p, emb, "__iter__")
     ln = _method(p, emb, "__len__")
     gi = _method(p, emb, "__getitem__")
-    ok = ".name" in _src(it, it.node) and "tar" in _src(it, it.node) and not any(isinstance(n, ast.If) for n in ast.walk(it.node))
+    elts = [n.elt for n in ast.walk(it.node) if isinstance(n, ast.GeneratorExp)] + [n.value for n in ast.walk(it.node) if isinstance(n, ast.Yield) and n.value is not None]
+    ok = ("tar" in _src(it, it.node) and not any(isinstance(n, ast.If) for n in ast.walk(it.node)) and bool(elts)
+          and all(isinstance(x, ast.Attribute) and x.attr == "name" and isinstance(x.value, ast.Name) for x in elts))
     r.ob(rule + ".embedded-siblings", it.qualname, ok, "iteration must yield every archive member name", it.where())
     ok = "getmembers()" in _src(ln, ln.node) and "len(" in _src(ln, ln.node) and not any(isinstance(n, (ast.If, ast.BinOp)) for n in ast.walk(ln.node))
     r.ob(rule + ".embedded-siblings", ln.qualname, ok, "the length must be the number of archive members", ln.where())
